@@ -32,6 +32,7 @@ fn shape(p: &mut Profile, r: &mut Rng) {
     p.flip_pm = 0;
     p.initial_cons = true;
     p.representable_ns_only = true;
+    p.motif_pct = *r.pick(&[0u32, 3, 8]);
     if r.pct(50) {
         p.w_wrap += 3;
     }
